@@ -289,8 +289,8 @@ def run(repo, rep, tier):
       if not found:
         # some test of the container mentions both columns, or a helper is called with them: the guard exists in a form that is not followed
         cols_ = re.findall(r"'(\w+)'", want)
-        mention = [tn for tn in ig.nodes for e_ in ictx.node_exprs(tn) if all(("'%s'" % c_) in norm(ictx.rd.expand(tn, e_)[0]) for c_ in cols_)
-                   and (tn.kind == 'test' or any(isinstance(y_, (ast.Call, ast.Compare)) for y_ in ast.walk(e_)))]
+        mention = [tn for tn in ig.nodes for e_ in ictx.node_exprs(tn)
+                   if any(isinstance(y_, ast.Compare) and all(("['%s']" % c_) in norm(y_) for c_ in cols_) for y_ in ast.walk(ictx.rd.expand(tn, e_)[0]))]
         if mention:
           rep.undecided('R4/container', 'container guard: %s' % what, 'the columns are compared at line %s in a form that is not followed' % getattr(mention[0].ast or mention[0].expr, 'lineno', '?'), init.loc())
           continue
